@@ -675,10 +675,8 @@ class PPG3204():
             warnings.warn(msg)
             size = np.clip(size, 1, self.MAX_MEMORY_LEN - start_addrs + 1)
 
-        if size > self.MAX_CHUNK_LEN:
-            bits_count = np.concatenate((np.tile([self.MAX_CHUNK_LEN], size//self.MAX_CHUNK_LEN), [size%self.MAX_CHUNK_LEN]))
-        else:
-            bits_count = [size]
+        n_full, rest = divmod(int(size), self.MAX_CHUNK_LEN)
+        bits_count = [self.MAX_CHUNK_LEN]*n_full + ([rest] if rest else []) # no zero-length read when size is a multiple of MAX_CHUNK_LEN
 
         data = []
         for ch in CHs:
@@ -691,7 +689,7 @@ class PPG3204():
                 data_ch.append( str2array(b[k+2:-1], bool).astype(np.uint8) )
                 addr += bit_count
 
-            data.append(np.array(data_ch))
+            data.append(np.concatenate(data_ch)) # chunks may have different lengths
         return np.array(data)
 
 
